@@ -322,6 +322,21 @@ CvSetWeights ==      \* curve.weights = W : positive weights of the right length
      Step([name |-> "CvSetWeights"] @@ a,
           IF ok THEN CvOut(a.obj, Curve(c.U, c.P, a.weights)) ELSE heap, RetRel(IF ok THEN "ok" ELSE "Error", <<>>, "exact"))
 
+(* curve.apply(V, M): the control points (homogeneous ones when there are weights) are multiplied by the matrix M and *)
+(* the knot vector is replaced by V.  The library makes no promise about the function - only that the result is a       *)
+(* consistent curve - and a matrix or vector of the wrong shape is refused WITHOUT touching the curve                   *)
+MatVec(M, x) == [i \in 1..Len(M) |-> Dot(M[i], x)]
+CvApply ==
+  \E a \in ArgsOf("CvApply", heap, depth) :
+     LET c  == AsCurve(heap[a.obj]) M == a.matrix V == a.kv
+         ok == /\ Len(M) = Npts(V) /\ \A i \in 1..Len(M) : Len(M[i]) = Npts(c.U)
+               /\ (c.W # <<>> => \A i \in 1..Len(M) : Sign(Dot(M[i], c.W)) > 0)
+         W2 == IF c.W = <<>> THEN <<>> ELSE MatVec(M, c.W)
+         P2 == IF c.W = <<>> THEN MatVec(M, c.P)
+               ELSE LET h == MatVec(M, [i \in 1..Len(c.P) |-> Mul(c.W[i], c.P[i])]) IN [i \in 1..Len(M) |-> Div(h[i], W2[i])]
+     IN Step([name |-> "CvApply"] @@ a, IF ok THEN CvOut(a.obj, Curve(V, P2, W2)) ELSE heap,
+             RetRel(IF ok THEN "ok" ELSE "Error", <<>>, "exact"))
+
 CvSetKnotvector ==   \* curve.knotvector = V
   \E a \in ArgsOf("CvSetKnotvector", heap, depth) :
      LET c == AsCurve(heap[a.obj]) V == a.kv IN
@@ -466,7 +481,7 @@ Next == /\ depth < MaxDepth
            \/ KvSetDegree \/ KvIOr \/ KvIAnd \/ KvOr \/ KvAnd \/ KvSplit \/ KvCopy \/ KvValueOp \/ KvEq
            \/ CvEval \/ FnBasis \/ CvKnotInsert \/ CvDegreeIncrease \/ CvSplit
            \/ CvKnotRemove \/ CvDegreeDecrease \/ CvClean \/ CvJoin \/ CvArith \/ CvScalar
-           \/ CvSplitJoin \/ CvEq \/ CvCopy \/ CvFraction \/ CvSetCtrlpoints \/ CvSetWeights \/ CvSetKnotvector \/ CvSplitTake \/ KvConvert
+           \/ CvSplitJoin \/ CvEq \/ CvCopy \/ CvFraction \/ CvSetCtrlpoints \/ CvSetWeights \/ CvSetKnotvector \/ CvApply \/ CvSplitTake \/ KvConvert
            \/ KvGen \/ CvDerivate \/ CvIntegrate \/ MemoRequest \/ CvFitCurve \/ CvFitInRational \/ CvFitPoints \/ CvFitFunction
            \/ GeoProject \/ GeoIntersect \/ IntegrateFn \/ GeoLength \/ GeoProjectOn \/ GeoIntersectCurved
 
